@@ -129,7 +129,8 @@ def discharge(ctx, name, goal, info=None):
         return Oblig(name, "valid", None, 0.0, "simplify", info)
     neg = z3.Not(goal)
     stringy = _has_strings(ctx.pc, goal)
-    quick_ms = min(eng.vc_timeout_ms, 1500)
+    # the incremental context rarely decides sequence-heavy VCs: give it a short try only
+    quick_ms = 300 if stringy else min(eng.vc_timeout_ms, 1500)
     s = ctx.solver
     s.push()
     s.set("timeout", quick_ms)
